@@ -449,13 +449,15 @@ Section C04_linker.
   Variable fun2 : nat -> num -> num -> num.
   Variable flagged : list num -> num -> bool.
 
-  (* for EVERY submodel evaluation oracle that writes only inside W id (array lengths kept) and `pass` linker hooks:
-     linker.solve_t(t) leaves the core's values alone and changes submodel `id` only inside W id; descriptors are kept *)
+  (* for EVERY submodel evaluation oracle that writes only inside W id (array lengths kept) and `pass` linker hooks, when no
+     offset is given: linker.solve_t(t) leaves the core's values alone and changes submodel `id` only inside W id; descriptors
+     are kept.  (With an offset the linker first seeds period t from t + offset — fix 6298cba —: next theorem.) *)
   Theorem C04_linker_solve_t_values_frame (sev : Linker.sid -> hook num) (pre ebefore eafter post : Linker.lhook num) (t : Z)
           (W : Linker.sid -> list nat -> nat -> nat -> Prop) :
     (forall id sh, hook_frame sh (W id sh) (sev id) t) ->
     EvalLinker.hook_id num pre -> EvalLinker.hook_id num ebefore -> EvalLinker.hook_id num eafter -> EvalLinker.hook_id num post ->
     forall sel o s i id c,
+    offset o = 0 ->
     nth_error (Linker.l_subs s) i = Some (id, c) ->
     vals_of (Linker.c_st (Linker.l_core (fst (Linker.linker_solve_t_M num sub absf ltb zero sev pre ebefore eafter post sel o t s))))
       = vals_of (Linker.c_st (Linker.l_core s)) /\
@@ -464,10 +466,23 @@ Section C04_linker.
                agree_outside (W id (shape (vals_of (Linker.c_st c)))) (vals_of (Linker.c_st c)) (vals_of (Linker.c_st c')).
   Proof. exact (EvalLinker.linker_solve_t_cells num sub absf ltb zero sev pre ebefore eafter post t W). Qed.
 
+  (* the whole call with ANY offset: guards, then the offset seeding (endogenous cells of period t of the core and of the
+     selected submodels copied from t + offset: Linker.seeded), then the body — the state left is related by the values frame
+     to the state after seeding, which is s itself or `seeded ids p q s` *)
+  Theorem C04_linker_solve_t_seed_then_frame (sev : Linker.sid -> hook num) (pre ebefore eafter post : Linker.lhook num) (t : Z)
+          (W : Linker.sid -> list nat -> nat -> nat -> Prop) :
+    (forall id sh, hook_frame sh (W id sh) (sev id) t) ->
+    EvalLinker.hook_id num pre -> EvalLinker.hook_id num ebefore -> EvalLinker.hook_id num eafter -> EvalLinker.hook_id num post ->
+    forall sel o s,
+    exists s0, (s0 = s \/ exists p q, s0 = Linker.seeded num zero (Linker.sel_ids num sel s) p q s) /\
+               EvalLinker.svr num W s0 (fst (Linker.linker_solve_t_M num sub absf ltb zero sev pre ebefore eafter post sel o t s)).
+  Proof. exact (EvalLinker.linker_solve_t_seed_then_frame num sub absf ltb zero sev pre ebefore eafter post t W). Qed.
+
   (* parser-built submodels (lsev: each submodel's generated pass as evaluate_t runs it, inside warnings.simplefilter('always')):
      each changes only the cells its OWN equations assign for index t, every selection of
      submodels, every option set (in a period the guard lets through these are (y, p + k): next theorem but one) *)
   Theorem C04_linker_parsed_solve_t_cells (progs : Linker.sid -> program num) sel o t s i id c :
+    offset o = 0 ->
     nth_error (Linker.l_subs s) i = Some (id, c) ->
     let s' := fst (Linker.linker_solve_t_M num sub absf ltb zero
                      (EvalLinker.lsev num add sub mul div pow neg absf ltb leb eqb zero fun1 fun2 flagged progs)
@@ -495,6 +510,7 @@ Section C04_linker.
   (* a period the guard lets through, submodel lags / leads within the linker's, arrays of the span's length: a submodel
      changes no cell other than (y, p + k) for its own left-hand terms — no wrap *)
   Theorem C04_linker_parsed_solve_t_cells_feasible (progs : Linker.sid -> program num) sel o t s i id c p :
+    offset o = 0 ->
     nth_error (Linker.l_subs s) i = Some (id, c) ->
     py_pos (length (status (Linker.c_st (Linker.l_core s)))) t = Some p ->
     feasible (Linker.c_desc (Linker.l_core s)) (length (status (Linker.c_st (Linker.l_core s)))) p = true ->
@@ -698,6 +714,7 @@ Print Assumptions C04_history_frame.
 Print Assumptions C04_history_unassigned_rows_unchanged.
 Print Assumptions C04_linker_solve_t_values_frame.
 Print Assumptions C04_linker_parsed_solve_t_cells.
+Print Assumptions C04_linker_solve_t_seed_then_frame.
 Print Assumptions C04_linker_rejected_min_gt_max_no_change.
 Print Assumptions C04_linker_infeasible_period_rejected.
 Print Assumptions C04_linker_parsed_solve_t_cells_feasible.
